@@ -28,12 +28,15 @@ type aclCase struct {
 }
 
 // callMethod invokes one method on conn and returns the status code.
-func callMethod(conn *grpc.ClientConn, m gen.Method, bypass bool) codes.Code {
+func callMethod(conn *grpc.ClientConn, m gen.Method, hdr string) codes.Code {
 	ctx, cancel := context.WithTimeout(context.Background(), 10*time.Second)
 	defer cancel()
 	pairs := []string{}
-	if bypass {
+	switch hdr {
+	case "translation-off":
 		pairs = append(pairs, "s2s-request-translation", "false")
+	case "intra-proxy": // a remote caller dressing its call up as traffic between two instances of this proxy
+		pairs = append(pairs, "x-s2s-intra-proxy", "1", "x-s2s-origin-proxy-id", "someone-else", "x-s2s-hop-count", "1")
 	}
 	if m.ClientStreaming || m.ServerStreaming {
 		pairs = append(pairs, history.MetadataKeyClientClusterID, "2", history.MetadataKeyClientShardID, "1", history.MetadataKeyServerClusterID, "1", history.MetadataKeyServerShardID, "1")
@@ -83,7 +86,8 @@ func runACL(c aclCase) (viol []rec.Violation, counts map[string]int64, inconclus
 	if c.Reversed {
 		sort.SliceStable(methods, func(i, j int) bool { return isAdmin(methods[i]) && !isAdmin(methods[j]) })
 	}
-	for _, bypass := range []bool{false, true} {
+	for _, hdr := range []string{"", "translation-off", "intra-proxy"} {
+		bypass := hdr
 		for _, m := range methods {
 			var code codes.Code
 			n := 0
@@ -92,7 +96,7 @@ func runACL(c aclCase) (viol []rec.Violation, counts map[string]int64, inconclus
 			// anything is concluded - a stable refusal or a stable loss shows on every attempt
 			for attempt := 0; attempt < 3; attempt++ {
 				a.local.take()
-				code = callMethod(conn, m, bypass)
+				code = callMethod(conn, m, hdr)
 				time.Sleep(time.Millisecond)
 				n = 0
 				for _, cr := range a.local.take() {
@@ -118,10 +122,19 @@ func runACL(c aclCase) (viol []rec.Violation, counts map[string]int64, inconclus
 					deny = true
 				}
 			}
+			if hdr == "intra-proxy" && !deny {
+				// what an allowed call carrying that marker is turned into is not this property's business; only the
+				// refusal of calls outside the allow-list is judged with it
+				counts["intra_proxy_marker_allowed_calls_not_judged"]++
+				continue
+			}
+			if hdr == "intra-proxy" {
+				counts["intra_proxy_marker_denied_calls_judged"]++
+			}
 			switch {
 			case deny:
 				if n > 0 {
-					v("denied-method-reached-local-cluster:"+shortSvc(m)+"/"+m.Name, "%s is outside the allow-list %v but the local cluster recorded %d call(s) (status %v, bypass header %v, mux %v)", m.FullName, c.Allowed, n, code, bypass, c.Mux)
+					v("denied-method-reached-local-cluster:"+shortSvc(m)+"/"+m.Name, "%s is outside the allow-list %v but the local cluster recorded %d call(s) (status %v, caller header %q, mux %v)", m.FullName, c.Allowed, n, code, bypass, c.Mux)
 				} else if code != codes.PermissionDenied {
 					v("denied-method-wrong-status:"+shortSvc(m)+"/"+m.Name, "%s is outside the allow-list but was answered with %v instead of PermissionDenied", m.FullName, code)
 				} else {
@@ -151,7 +164,7 @@ func runACL(c aclCase) (viol []rec.Violation, counts map[string]int64, inconclus
 			for _, m := range methods {
 				if isAdmin(m) && m.Name == name {
 					a.remote.take()
-					code := callMethod(oc, m, false)
+					code := callMethod(oc, m, "")
 					time.Sleep(time.Millisecond)
 					if len(a.remote.take()) != 1 || code != codes.OK {
 						v("outbound-server-affected-by-policy:"+m.Name, "admin method %s on the local-facing server: status %v (the inbound policy must not guard it)", m.Name, code)
